@@ -192,47 +192,55 @@ inductive Act where
   | error
 deriving Repr, DecidableEq, Inhabited
 
+/-- Does the state consult the next token before acting? (`action < -2` or a shift state in the
+default encoding; `action > tmActionBase` in the optimized one.) -/
+def needsTok (t : Tables) (s : Int) : Option Bool :=
+  if t.optimized then (geti t.oAction s).map fun a => decide (a > t.oBase)
+  else (geti t.action s).map fun a => decide (a < -2 ∨ a = -1)
+
+/-- normalise a raw table value of the optimized encoding -/
+def actOfOptValue (a : Int) : Act :=
+  if a ≥ 0 then .reduce a else if a < -1 then .shift (-2 - a) else .error
+
+/-- The action in state `s` when the next token is `a` (`a` is ignored by states that do not
+consult the token). `deep` resolves a pointer into a nested lookahead list (LALR(k)). -/
+def actOf (t : Tables) (deep : Int → Option Int) (s a : Int) : Option Act :=
+  if t.optimized then
+    match geti t.oAction s with
+    | none => none
+    | some action =>
+      if action > t.oBase then (optLookup t s action a).map actOfOptValue
+      else (geti t.oDefAct s).map actOfOptValue
+  else
+    match geti t.action s with
+    | none => none
+    | some action =>
+      let r : Option Int :=
+        if action < -2 then
+          match lalrLookup t action a with
+          | none => none
+          | some x => if x < -2 then deep x else some x
+        else some action
+      match r with
+      | none => none
+      | some x =>
+        if x ≥ 0 then some (.reduce x)
+        else if x = -1 then
+          match gotoDefault t s a with
+          | none => none
+          | some q => if q ≥ 0 then some (.shift q) else some .error
+        else some .error
+
 /-- The action chosen in the state of `c`, fetching the lookahead token when the state needs one
 (first half of the loop body). `none` = a Go runtime panic (index out of range). -/
 def decode (t : Tables) (inp : Input) (c : Cfg) : Option (Cfg × Act) :=
-  if t.optimized then
-    match geti t.oAction c.state with
-    | none => none
-    | some action =>
-      let r : Option (Cfg × Int) :=
-        if action > t.oBase then
-          let (c1, tk) := c.fetch inp
-          (optLookup t c.state action tk.sym).map fun a => (c1, a)
-        else (geti t.oDefAct c.state).map fun a => (c, a)
-      match r with
-      | none => none
-      | some (c1, a) =>
-        if a ≥ 0 then some (c1, .reduce a)
-        else if a < -1 then some (c1, .shift (-2 - a))
-        else some (c1, .error)
-  else
-    match geti t.action c.state with
-    | none => none
-    | some action =>
-      let r : Option (Cfg × Int) :=
-        if action < -2 then
-          let (c1, tk) := c.fetch inp
-          match lalrLookup t action tk.sym with
-          | none => none
-          | some a =>
-            if a < -2 then (deepLA t inp (inp.toks.size + 2) c1.pos a).map fun a => (c1, a)
-            else some (c1, a)
-        else some (c, action)
-      match r with
-      | none => none
-      | some (c1, a) =>
-        if a ≥ 0 then some (c1, .reduce a)
-        else if a = -1 then
-          let (c2, tk) := c1.fetch inp
-          match gotoDefault t c2.state tk.sym with
-          | none => none
-          | some q => if q ≥ 0 then some (c2, .shift q) else some (c2, .error)
-        else some (c1, .error)
+  match needsTok t c.state with
+  | none => none
+  | some true =>
+    let (c1, tk) := c.fetch inp
+    (actOf t (deepLA t inp (inp.toks.size + 2) c1.pos) c.state tk.sym).map fun a => (c1, a)
+  | some false =>
+    (actOf t (fun _ => none) c.state 0).map fun a => (c, a)
 
 /-- Second half of the loop body: perform the decoded action. -/
 def apply (t : Tables) (inp : Input) (c1 : Cfg) : Act → Step
